@@ -30,6 +30,9 @@ Definition sx_op (s : sx) : option op :=
   | SL [SZ 2%Z; a; es; ws] =>
       bind (sx_nat a) (fun a' => bind (sx_list sx_edge es) (fun es' => bind (sx_list sx_nat ws) (fun ws' =>
       Some (AddEdges a' es' ws'))))
+  | SL [SZ 10%Z; a; es; st] =>
+      bind (sx_nat a) (fun a' => bind (sx_list sx_edge es) (fun es' => bind (sx_bool st) (fun st' =>
+      Some (RemoveEdges a' es' st'))))
   | SL [SZ 3%Z; a; xs] =>
       bind (sx_nat a) (fun a' => bind (sx_list sx_nat xs) (fun xs' => Some (RemoveNodes a' xs')))
   | SL [SZ 4%Z; a; cs] =>
